@@ -208,8 +208,11 @@ CHECKS = {
         category='proof',
         text='Proof of fragment ("no state is carried from one match attempt into the next"): for pattern lists of ANY '
              'length (loop invariant) _match__inside_list leaves both cursors at their entry positions and the tag '
-             'stack at its entry depth on failure, and the tag stack balanced on success, against assumed contracts of '
-             'its callees; _MatchList.next/at_end cursor protocol; _MatchState.new_tagss/discard_tagss/pop_merge_tagss '
+             'stack at its entry depth on failure, and the tag stack balanced on success; _match__inside_list_quantifier '
+             '(any bounds, greedy / non-greedy, tagged / static tags, element or sub-list pattern; loop invariants) '
+             'leaves the target cursor at its entry position and the stack at its entry depth on failure and the stack '
+             'balanced on success - each against the other\'s contract (mutual recursion through contracts) and assumed '
+             'contracts of the per-class match functions; _MatchList.next/at_end cursor protocol; _MatchState.new_tagss/discard_tagss/pop_merge_tagss '
              'push one and pop exactly one. The quantifier semantics itself is decided by exhaustive enumeration, and '
              'the bound is the property\'s own ("up to a length bound"): every sequence of <= 3 (thorough 4) pattern '
              'items over 3 atoms and 18 quantified forms x every element sequence of length <= 4 (thorough 6) over '
@@ -217,8 +220,8 @@ CHECKS = {
              'back-references; plus layout independence (tree vs re-laid-out tree vs pure AST), repeat-call '
              'independence, search == filter(match, walk), own-AST match and single-leaf difference, shared-sub-pattern '
              'state and search pre-filter checks. Known findings F-C17-1 (sublist quantifiers), F-C17-2.',
-        note=TB + 'Oracle of the bounded part: Python\'s re module. _match__inside_list_quantifier and the leaf-type '
-             'pre-filter are not under contract (assumed contracts stated in evidence).',
+        note=TB + 'Oracle of the bounded part: Python\'s re module. The leaf-type pre-filter is not under contract; the '
+             'per-class match functions are assumed to preserve the tag stack depth (stated in evidence).',
         technique='contract-based deductive verification of the rewind / tag-stack discipline (loop invariant, z3) + '
                   'bounded exhaustive enumeration of quantifier sequences against re.fullmatch + runtime contracts on '
                   'match/search',
